@@ -551,3 +551,16 @@ def match_finding(findings, prop, sig):
         if all(sig.get(k) == v for k, v in m.items()):
             return f
     return None
+
+
+def repo_func(exc):
+    """name of the innermost /repo function in an exception's traceback (stable root-cause attribute)"""
+    import traceback as _tb
+
+    root = os.environ.get("VERIF_REPO_ROOT", "/repo")
+    pre = (os.path.join(root, "passlib") + os.sep, os.path.join(root, "libpass") + os.sep)
+    name = "?"
+    for fs in _tb.extract_tb(exc.__traceback__):
+        if fs.filename.startswith(pre):
+            name = fs.name
+    return name
